@@ -16,7 +16,7 @@ ASSUMPTIONS = [
     "substituting torch.rand inside MatNetInitEmbedding.forward only; without pinning two calls differ by design",
     "policies/envs combinations that the library does not support at all (no embedding registered) are not run",
 ]
-REQUIRED_COUNTERS = ["c14_solo_decodes", "c14_comparisons", "c14_ctx_pool", "c14_ctx_subset", "c14_ctx_copies"]
+REQUIRED_COUNTERS = ["c14_eval_chunkings", "c14_solo_decodes", "c14_comparisons", "c14_ctx_pool", "c14_ctx_subset", "c14_ctx_copies"]
 MIN_NONTRIVIAL = {"quick": 2500, "thorough": 30000}
 WORKERS = {"quick": 14, "thorough": 16}
 BUDGET_S = {"quick": 500, "thorough": 3000}
@@ -70,13 +70,19 @@ def cases(tier, seed):
             for r in range(2 if q else 6):
                 k = n // 2 if env == "pdp" else n
                 out.append(dict(policy="am", env=env, n=n, m=6 if q else 8, s=rnd.randrange(10**6), wseed=r, extra={}, multistart=k))
+    # the same dataset evaluated with several loader batch sizes (partial last chunk, chunks of one)
+    for env in ("tsp", "cvrp", "op", "pctsp"):
+        for method in ("greedy", "augment_dihedral_8", "multistart_greedy"):  # (the symmetric augmentation draws random rotations per loader batch: chunk-dependent by design)
+            for r in range(1 if q else 4):
+                N = rnd.choice([7, 10])
+                out.append(dict(kind="chunks", policy="am", env=env, n=rnd.choice([6, 8]), N=N, bss=[N, 4, 3, 1], method=method, starts=3, A=8, s=rnd.randrange(10**6), wseed=r, extra={}))
     return out
 
 
 def run_case(ctx, case):
     from vlib import c14impl
 
-    c14impl.case(ctx, case)
+    (c14impl.chunk_case if case.get("kind") == "chunks" else c14impl.case)(ctx, case)
 
 
 MANIFEST = {
